@@ -13,6 +13,7 @@ Everything random derives from one `random.Random(VERIF_SEED)`.
 """
 from __future__ import annotations
 
+import contextlib
 import hashlib
 import json
 import math
@@ -503,6 +504,17 @@ _DECOY_GRO_V = (b"decoy with velocities\n    2\n"
                 b"   1.00000   1.00000   1.00000\n")
 
 _decoy_calls = [0]
+
+
+@contextlib.contextmanager
+def quiet():
+    """silence the warnings a library call may emit (degenerate geometry: 0/0, …) WITHOUT touching numpy's floating-point
+    error state: `np.errstate(all="ignore")`, used here before, overrode exactly what a change like seed C17-11
+    (`np.seterr(all='raise')` at import of a module of the package) alters"""
+    import warnings
+    with warnings.catch_warnings():
+        warnings.simplefilter("ignore")
+        yield
 
 
 def decoy(path: str, kind: str):
